@@ -92,7 +92,7 @@ class PoolWorld(HistoryWorld):
         q = tier == 'quick'
         self.legs = {
             'C01': [('main', 20000 if q else 600000), ('deep', 8 if q else 80)],
-            'C03': [('main', 12000 if q else 400000), ('boundary', 48 if q else 600), ('deep', 4 if q else 24)] + ([] if q else [('huge', 8)]),
+            'C03': [('main', 12000 if q else 400000), ('boundary', 48 if q else 600), ('deep', 4 if q else 24), ('huge', 4 if q else 16)],
             'C08': [('main', 10000 if q else 300000)],
         }[prop]
         self.budget = {'quick': 100, 'thorough': 1500}
@@ -140,7 +140,7 @@ class PoolWorld(HistoryWorld):
             shapes = ['cells255', 'cells256', 'cells257', 'pay255', 'pay256', 'pay65535', 'pay65536', 'diamond', 'ladder', 'wide-shared', 'exotic', 'two-same-refs', 'proof-next-to-data', 'update-skeleton-vs-full']
             return {'steps': 8, 'callers': 1, 'arena': 1, 'shape': shapes[run_index % len(shapes)]}
         if leg == 'huge':
-            return {'steps': 3, 'callers': 1, 'arena': 1, 'shape': 'cells%d' % (65534 + run_index % 4)}
+            return {'steps': 5, 'callers': 1, 'arena': 1, 'shape': 'cells%d' % (65534 + run_index % 4)}
         return {'steps': rng.choice([20, 40, 80]), 'callers': 1, 'arena': rng.choice([3, 6, 12]), 'exotic': rng.random() < (0.4 if self.prop == 'C03' else 0.2)}
 
     def new_state(self, ctx):
@@ -220,10 +220,13 @@ class PoolWorld(HistoryWorld):
         r = rng.random()
         big = bool(cfg.get('shape') or cfg.get('deep'))
         if big:
-            if not c.blobs or r < 0.4:
+            # forced shapes are expensive: strictly alternate serialise / parse-the-newest so that every serialisation is parsed
+            nparsed = getattr(c, 'nparsed', 0)
+            if len(c.blobs) <= nparsed:
                 f = OPTS[(st.step + rng.randrange(6)) % 6]
                 return {'op': 'to_boc', 'c': ['A', 0], 'idx': f[0], 'crc': f[1], 'cache': f[2], 'caller': 0}
-            return {'op': 'parse', 'blob': rng.randrange(1 << 16), 'enc': rng.choice(['bytes', 'hex', 'b64']), 'entry': rng.choice(['cell_one', 'cell_list', 'slice', 'builder']), 'caller': 0}
+            c.nparsed = nparsed + 1
+            return {'op': 'parse', 'blob': len(c.blobs) - 1, 'enc': rng.choice(['bytes', 'hex', 'b64']), 'entry': rng.choice(['cell_one', 'cell_list', 'slice', 'builder']), 'caller': 0}
         if r < 0.3:
             return self._gen_create(rng)
         if r < 0.6 or not c.blobs:
@@ -949,24 +952,13 @@ def make_shape(shape, rng):
         return RCell(tlb.enc_bytes(i.to_bytes(4, 'big') + bytes(rng.getrandbits(8) for _ in range(max(0, nbytes - 4)))))
     if shape.startswith('cells'):
         n = int(shape[5:])
-        # a wide tree: n-1 distinct leaves/inner nodes packed 4 per parent
-        level = [leaf(i) for i in range(n)]
-        total = n
-        # we need exactly n cells in total: build parents out of existing cells, counting them
-        cells = [leaf(i) for i in range(1)]
-        total = 1
-        cur = cells
-        idx = 1
-        # chain-of-fans: each new parent references up to 3 fresh leaves and the previous parent
-        prev = cells[0]
-        while total < n:
-            fresh = []
-            while len(fresh) < 3 and total + len(fresh) + 1 < n:
-                fresh.append(leaf(idx))
-                idx += 1
-            total += len(fresh) + 1
-            prev = RCell(tlb.enc_uint(idx, 32), tuple(fresh) + (prev,))
-            idx += 1
+        # a complete 4-ary tree in heap order: cell i references cells 4i+1..4i+4 (those below n); exactly n distinct
+        # cells, depth log4(n), built bottom-up
+        made = [None] * n
+        for i in range(n - 1, -1, -1):
+            kids = tuple(made[j] for j in range(4 * i + 1, min(4 * i + 5, n)))
+            made[i] = RCell(tlb.enc_uint(i, 32), kids)
+        prev = made[0]
         assert len(prev.walk()) == n, (len(prev.walk()), n)
         return prev
     if shape.startswith('pay'):
